@@ -11,7 +11,7 @@ Driver for the grounding-engine model (`ProbLogModel/GroundAcyclic.lean`).
   calls = ((atom label)*)
   sched = ((a i*)*)                                             selection code per goal (missing = source order)
   ranks = ((a r)*)                                              rank function (missing = 0)
-output: `ok <acyclic w.r.t. ranks: t|f> <max rank of a called atom < fuel: t|f> (table (a key)*) <store>` or `error <what>`
+output: `ok <hypotheses of the theorems (wfB: distinct goals, ranks decrease, no empty body): t|f> <max rank of a called atom < fuel: t|f> (table (a key)*) <store>` or `error <what>`
 -/
 open ProbLogModel.Proto ProbLogModel.StoreIO ProbLogModel.Formula ProbLogModel ProbLogModel.GroundAcyclic
 
@@ -79,7 +79,7 @@ def step (_ : Unit) (line : String) : Unit × String :=
       let rank : Atom → Nat := fun a => ((lookup rk a).getD []).headD 0
       match groundAll P sched fuel calls { store := { opts := o } } with
       | .ok (_, st) =>
-        "ok " ++ rB (acyclicB P rank) ++ " " ++ rB (calls.all (fun c => rank c.atom < fuel)) ++ " " ++
+        "ok " ++ rB (wfB P ((P.defs.map (·.1)).foldl max 0 + 1) rank) ++ " " ++ rB (calls.all (fun c => rank c.atom < fuel)) ++ " " ++
           renderList ("table" :: st.table.map (fun (a, k) => renderList [toString a, rKey k])) ++ " " ++ rStore st.store
       | .error e => "error " ++ rErr e
     | _, _, _, _, _, _ => "bad-op"
